@@ -148,6 +148,16 @@ class Hist(Scenario):
                 with ctx.impl(f"op{i} update_variable (last variable)"):
                     sim.update_variable(names[-1], v)
                 y_cur = list(y_cur[:-1]) + [v]
+            elif op == "RD":
+                # the result so far is read (fluxes and derivatives) - reading must not disturb what comes next
+                if started:
+                    with ctx.impl(f"op{i} read fluxes and derivatives of the result so far"):
+                        r_ = sim.get_result().unwrap_or_err()
+                        _ = r_.fluxes
+                        _ = r_.get_right_hand_side()
+                    after = ghost_pvals(m)
+                    for n_ in p:
+                        ctx.eq(f"op{i} RD: reading leaves parameter {n_} in force", after[n_], p[n_])
             elif op == "CL":
                 with ctx.impl(f"op{i} clear_results"):
                     sim.clear_results()
@@ -259,6 +269,9 @@ def scenarios(tier, seed):
     # two overrides of different variables in a row: both apply
     for h in (("S1", "UV", "UW", "S1"), ("S1", "UW", "UV", "TC2"), ("UV", "UW", "S1"), ("TC2", "UV", "UP", "UW", "S1")):
         scs.append(Hist("chain", h))
+    # the result is read between an edit and the next run
+    for h in (("S1", "UP", "RD", "S1"), ("TC2", "UP", "RD", "TC2"), ("S1", "RD", "UP", "S1"), ("S1", "UV", "RD", "S1"), ("S1", "UP", "S1", "UP", "RD", "S1")):
+        scs.append(Hist("decay", h))
     # minimal histories for constructs with open findings (kept out of the composites above)
     for h in (("SS",), ("S1", "SS"), ("SS", "S1"), ("UV", "SS"), ("S1", "SS", "S1"), ("S1", "UV", "SS"), ("SS", "TC2")):
         scs.append(Hist("decay", h))
